@@ -75,6 +75,9 @@ def pool(variant, maxlen):
           lit("\\u0041"), lit("\\U0001F600"), lit("a\\u00e9b\n"), lit("\\\\u0041"), lit("\\u00"), lit("\\x41")]
     T += [{"k": "iri", "v": u} for u in ("http://example.org/a?", "http://example.org/a;", "http://example.org/a?#frag", "HTTP://EXAMPLE.org/A", "http://example.org/a/./b/../c", "http://example.org/a#",
                                          "http://schema.org/name", "https://schema.org/name", "http://ex.example/T", "svn+ssh://h/p", "z39.50s://h/p", "mailto:a@b.example")]
+    # IRIs with white space other than the space / control characters; a variable whose name starts with the sigil
+    T += [{"k": "iri", "v": u} for u in ("http://ex.example/a\tb", "http://ex.example/a\nb", "http://ex.example/a\rb", "http://ex.example/a\x01b")]
+    T += [{"k": "var", "v": "?x"}, {"k": "var", "v": "$x"}]
     # IRIs that cannot be written between < and > (they build with a warning and are terms like any other)
     T += [{"k": "iri", "v": u} for u in ("http://ex.example/my file.txt", "http://ex.example/a<b", 'http://ex.example/a"b', "http://ex.example/a{b}", "http://ex.example/a|b", "http://ex.example/a\\b",
                                          "http://ex.example/a^b", "http://ex.example/a`b", "http://ex.example/a>b")]
@@ -88,7 +91,7 @@ def pool(variant, maxlen):
     return T
 
 
-BAD_IRI_CHARS = ' <>"{}|\\^`'
+BAD_IRI_CHARS = ' <>"{}|\\^`\t\n\r\x01'
 VIA = ["pickle0", "pickle1", "pickle2", "pickle3", "pickle4", "pickle5", "copy", "deepcopy", "ctor", "from_n3", "from_n3_nsm", "turtle", "sparql_values", "sparql_base", "sparql_prepared"]
 
 
@@ -143,6 +146,8 @@ def run(out, tier, seed):
         jobs.append({"cfg": {}, "events": [{"op": "sort", "xs": xs, "seed": i}]})
     for t in T:
         for h in VIA:
+            if h == "ctor" and t["k"] == "var" and t["v"].startswith("?"):
+                continue        # Variable(name) takes a leading "?" for the sigil by documented design: not a copy for such a name
             if h.startswith(("pickle", "copy", "deepcopy", "ctor")) or n3_ok(t, h):
                 jobs.append({"cfg": {}, "events": [{"op": "via", "how": h, "a": t}]})
     # the store's NodePickler, shared between terms: every ordered pair of pool terms that spell the same string
